@@ -299,7 +299,7 @@ func (e *Enc) compileSel(c *SpecCtx, x *Expr) CE {
 			if a.P != nil {
 				pl = &Place{Kind: PField, Base: a.P, Field: i, Typ: ft}
 			}
-			return CE{T: e.B.structField(a.Typ, a.T, i), Typ: ft, P: pl}
+			return e.typedRead(CE{T: e.B.structField(a.Typ, a.T, i), Typ: ft, P: pl})
 		}
 	}
 	fail("%s: no field %s in %s", c.what, x.Name, a.Typ)
@@ -331,16 +331,16 @@ func (e *Enc) compileIdx(c *SpecCtx, x *Expr) CE {
 	case *types.Slice:
 		ptr := fmt.Sprintf("(mkptr (sarr %s) (+ (soff %s) %s))", a.T, a.T, e.toInt(c, i))
 		pl := &Place{Kind: PDeref, Ptr: ptr, Typ: u.Elem()}
-		return CE{T: e.getPlace(c.st, pl), Typ: u.Elem(), P: pl}
+		return e.typedRead(CE{T: e.getPlace(c.st, pl), Typ: u.Elem(), P: pl})
 	case *types.Array:
 		var pl *Place
 		if a.P != nil {
 			pl = &Place{Kind: PIndex, Base: a.P, Idx: i.T, Typ: u.Elem()}
 		}
-		return CE{T: fmt.Sprintf("(select %s %s)", a.T, i.T), Typ: u.Elem(), P: pl}
+		return e.typedRead(CE{T: fmt.Sprintf("(select %s %s)", a.T, i.T), Typ: u.Elem(), P: pl})
 	case *types.Map:
 		val := e.get(c.st, e.mapKey(u, "val"), e.mapSort(u, "val"))
-		return CE{T: fmt.Sprintf("(select (select %s %s) %s)", val, a.T, i.T), Typ: u.Elem()}
+		return e.typedRead(CE{T: fmt.Sprintf("(select (select %s %s) %s)", val, a.T, i.T), Typ: u.Elem()})
 	case *types.Basic:
 		e.B.declTop("strbyte", "(declare-fun strbyte (Str Int) Int)")
 		return CE{T: fmt.Sprintf("(strbyte %s %s)", a.T, i.T), Typ: tMath}
@@ -686,4 +686,18 @@ func (e *Enc) lookupType(name string) types.Type {
 		}
 	}
 	return nil
+}
+
+// typedRead gives a specification-level read of an integer-typed location its
+// Go type's range. Real states only hold in-range values, so clamping is the
+// identity on them; it hands the solver the range fact in either polarity
+// (code-side loads assume the same range directly).
+func (e *Enc) typedRead(ce CE) CE {
+	if ce.Typ == nil || isMath(ce.Typ) {
+		return ce
+	}
+	if ii, ok := intInfoOf(ce.Typ); ok {
+		ce.T = fmt.Sprintf("(imax %s (imin %s %s))", intLit(ii.lo()), intLit(ii.hi()), ce.T)
+	}
+	return ce
 }
